@@ -26,8 +26,31 @@ FLOORS = {"mirrored-component": 0.1, "nesting>=2": 0.1, "x.5-coordinate": 0.2, "
 
 @st.composite
 def _case(draw):
+    spec = draw(gen.outline_font(max_glyphs=8))
+    names = [g["name"] for g in spec["glyphs"] if g["name"] != ".notdef"]
+    extra = {}
+    if len(names) >= 2 and draw(st.integers(0, 3)) == 0:
+        skip = draw(st.lists(st.sampled_from(names), min_size=1, max_size=len(names) - 1, unique=True))
+        extra["skip"] = skip
+        extra["skip_via"] = draw(st.sampled_from(["lib", "arg"]))
+    if draw(st.integers(0, 3)) == 0:
+        extra["lib_filters"] = draw(
+            st.lists(
+                st.sampled_from(
+                    [
+                        {"name": "flattenComponents", "pre": True},
+                        {"name": "flattenComponents"},
+                        {"name": "decomposeComponents", "pre": True},
+                        {"name": "propagateAnchors", "pre": True},
+                    ]
+                ),
+                min_size=1,
+                max_size=2,
+            )
+        )
     return {
-        "spec": draw(gen.outline_font(max_glyphs=8)),
+        **extra,
+        "spec": spec,
         "module": draw(st.sampled_from(["ufoLib2", "defcon"])),
         "tol": draw(st.sampled_from([None, 0.5, 0, 0.25])),
         "cff": draw(st.sampled_from([1, 2])),
@@ -69,6 +92,38 @@ def ops_match(a, b, tol):
         elif not all(peq(p, q) for p, q in zip(pa, pb)):
             return False
     return True
+
+
+def match(n, pred, ordered):
+    """None if expected contours 0..n-1 can be matched with the n drawn ones (in order, or as a perfect matching when the
+    order is not fixed); else the index of an unmatched expected contour"""
+    if all(pred(i, i) for i in range(n)):
+        return None
+    if ordered:
+        return next(i for i in range(n) if not pred(i, i))
+    cache = {}
+
+    def ok(i, j):
+        if (i, j) not in cache:
+            cache[(i, j)] = pred(i, j)
+        return cache[(i, j)]
+
+    m = {}
+
+    def augment(i, seen):
+        for j in range(n):
+            if j in seen or not ok(i, j):
+                continue
+            seen.add(j)
+            if j not in m or augment(m[j], seen):
+                m[j] = i
+                return True
+        return False
+
+    for i in range(n):
+        if not augment(i, set()):
+            return i
+    return None
 
 
 def classify(spec, ctx):
@@ -125,11 +180,22 @@ def run_case(case, ctx):
     spec, tol, ver, opt = case["spec"], case["tol"], case["cff"], case["opt"]
     if extent(spec) > 16000:
         raise Discard("resolved coordinate beyond +-16000")
+    skip = set(case.get("skip") or [])
+    spec = dict(spec)
+    spec["lib"] = dict(spec.get("lib", {}))
+    kw = {}
+    if skip and case.get("skip_via") == "lib":
+        spec["lib"]["public.skipExportGlyphs"] = sorted(skip)
+    elif skip:
+        kw["skipExportGlyphs"] = sorted(skip)
+    if case.get("lib_filters"):
+        spec["lib"]["com.github.googlei18n.ufo2ft.filters"] = case["lib_filters"]
+        ctx.label("lib-filters")
     f = S.build(spec, S.ufo_module(case["module"]))
-    neg = any(R.ot_round(g.get("width", 0)) < 0 for g in spec["glyphs"])
+    neg = any(R.ot_round(g.get("width", 0)) < 0 for g in spec["glyphs"] if g["name"] not in skip)
     try:
         with guard("compileOTF", allowed=(ValueError,)):
-            otf = ufo2ft.compileOTF(f, roundTolerance=tol, cffVersion=ver, optimizeCFF=opt, useProductionNames=False, featureWriters=[])
+            otf = ufo2ft.compileOTF(f, roundTolerance=tol, cffVersion=ver, optimizeCFF=opt, useProductionNames=False, featureWriters=[], **kw)
             b = io.BytesIO()
             otf.save(b)
     except ValueError as e:
@@ -144,8 +210,17 @@ def run_case(case, ctx):
     gi = R.glyph_index(spec)
     rounding = tol is None or tol >= 0.5
     rnd = (lambda p: (R.ot_round(p[0]), R.ot_round(p[1]))) if rounding else (lambda p: p)
+    ordered = not skip   # inlining a skipped base turns it into own contours, which precede the remaining components
+    if skip:
+        ctx.label("skip-list")
+        if any(c["base"] in skip for g in spec["glyphs"] if g["name"] not in skip for c in g.get("components", [])):
+            ctx.label("skipped-glyph-used-as-component")
     for g in spec["glyphs"]:
         name = g["name"]
+        if name in skip:
+            if name in t.getGlyphOrder():
+                raise Violation("non-exported glyph present in the font", glyph=name)
+            continue
         exp_w = R.ot_round(g.get("width", 0))
         if t["hmtx"][name][0] != exp_w:
             raise Violation("advance width differs", glyph=name, got=t["hmtx"][name][0], source=g.get("width"), expected=exp_w)
@@ -163,11 +238,16 @@ def run_case(case, ctx):
         if opt == 0:
             if len(got) != len(exp):
                 raise Violation("number of contours differs", glyph=name, got=len(got), expected=len(exp))
-            for i, (gc, (ec, rev)) in enumerate(zip(got, exp)):
+            def pred(i, j):
+                ec, rev = exp[i]
+                gc = got[j]
                 ecr = R.map_cycle(ec, rnd)
                 cands = R.rotations(ecr) if rev else [ecr]
-                if not any(ops_match(R.strip_tail((gc[0], gc[1])), R.strip_tail(R.oplist(cd)), tol) for cd in cands):
-                    raise Violation("outline differs from resolved+rounded source", glyph=name, contour=i, reversed=rev, got=gc, expected=ecr, tol=tol)
+                return any(ops_match(R.strip_tail((gc[0], gc[1])), R.strip_tail(R.oplist(cd)), tol) for cd in cands)
+
+            bad = match(len(exp), pred, ordered)
+            if bad is not None:
+                raise Violation("outline differs from resolved+rounded source", glyph=name, contour=bad, reversed=exp[bad][1], got=got[bad] if ordered else got, expected=R.map_cycle(exp[bad][0], rnd), tol=tol)
             ctx.count("contours-compared-exact", len(got))
         else:
             if not rounding:
@@ -180,7 +260,7 @@ def run_case(case, ctx):
                 x = R.n1((ecr[0], ecr[1]))
                 if x:
                     ne.append(x)
-            if len(ng) != len(ne) or not all(R.n1_equal(x, y, 1) for x, y in zip(ng, ne)):
+            if len(ng) != len(ne) or match(len(ne), lambda i, j: R.n1_equal(ng[j], ne[i], 1), ordered) is not None:
                 raise Violation("outline differs under N1 (specialised charstrings)", glyph=name, got=ng, expected=ne)
             ctx.count("contours-compared-n1", len(ng))
     classify(spec, ctx)
